@@ -35,7 +35,10 @@ def _seg_job(job):
     common.use_repo()
     import athlib
     fn = athlib.athlon_score
-    g, e, age, esaa, form, lo, hi, step = job
+    g, e, age, esaa, form, lo, hi, step = job[:8]
+    cg, ce = g, e                       # the row (canonical spelling); g, e = the spelling used in the calls
+    if len(job) > 8:
+        g, e = job[8], job[9]
     segs = []
     prev = None
     n = 0
@@ -75,7 +78,8 @@ def _seg_job(job):
     for i in pick:
         c, v, j = asked[i]
         re_.append([c, call(fn, g, e, v, **kw), j])
-    return {'k': 'seg', 'g': g, 'e': e, 'age': age or 0, 'esaa': bool(esaa), 'form': form, 'segs': segs, 're': re_, 'n': n + len(re_)}
+    return {'k': 'seg', 'g': cg, 'e': ce, 'age': age or 0, 'esaa': bool(esaa), 'form': form, 'segs': segs, 're': re_, 'n': n + len(re_),
+            'sg': g, 'se': e}
 
 
 def _age_job(job):
@@ -89,7 +93,8 @@ def _age_job(job):
 def _need_job(job):
     common.use_repo()
     import athlib
-    g, e, known, targets = job
+    cg, ce, known, targets = job[:4]
+    g, e = (job[4], job[5]) if len(job) > 4 else (cg, ce)       # the spelling used in the calls
     out = []
     try:
         p0 = athlib.athlon_performance_needed(g, e, 0)
@@ -100,18 +105,18 @@ def _need_job(job):
         try:
             p = athlib.athlon_performance_needed(g, e, t)
         except Exception:
-            out.append({'k': 'need', 'g': g, 'e': e, 't': t, 'known': known, 'none': False, 'ongrid': False, 'perf': 0,
+            out.append({'k': 'need', 'sg': g, 'se': e, 'g': cg, 'e': ce, 't': t, 'known': known, 'none': False, 'ongrid': False, 'perf': 0,
                         'sAt': -100, 'sWorse': -100, 'n': 1})
             continue
         if p is None or not known:
-            out.append({'k': 'need', 'g': g, 'e': e, 't': t, 'known': known, 'none': p is None, 'ongrid': False, 'perf': 0,
+            out.append({'k': 'need', 'sg': g, 'se': e, 'g': cg, 'e': ce, 't': t, 'known': known, 'none': p is None, 'ongrid': False, 'perf': 0,
                         'sAt': -1, 'sWorse': -1, 'n': 1})
             continue
         pc = int(round(p * 100))
         ongrid = abs(p * 100 - pc) < 1e-6
         track = athlib.athlon_score.__globals__['unit_name'](e) == 'seconds'
         worse = (pc + 1) / 100.0 if track else (pc - 1) / 100.0
-        out.append({'k': 'need', 'g': g, 'e': e, 't': t, 'known': True, 'none': False, 'ongrid': ongrid, 'perf': pc, 'perf0': perf0,
+        out.append({'k': 'need', 'sg': g, 'se': e, 'g': cg, 'e': ce, 't': t, 'known': True, 'none': False, 'ongrid': ongrid, 'perf': pc, 'perf0': perf0,
                     'sAt': call(athlib.athlon_score, g, e, p), 'sWorse': call(athlib.athlon_score, g, e, worse), 'n': 3})
     return out
 
@@ -160,6 +165,12 @@ def sweep_jobs(quick, rng, with_age=True):
         # an age below the first masters band leaves the score unadjusted - whether or not the masters table knows the event
         for b in (1, 20, 34):
             jobs.append((g, e, b, False, 'float', lo + (b * 13) % 1999, hi, 1999 if quick else 211))
+        # the row is found whatever the letter case of gender and event ('hj', 'Hj', 'm'): spelled variants, strided
+        if any(ch.isalpha() for ch in e):
+            for sg, se in ((g.lower(), e.lower()), (g, e.capitalize()), (g.lower(), e)):
+                jobs.append((g, e, None, False, 'float', lo + 7, hi, 1499 if quick else 97, sg, se))
+        else:
+            jobs.append((g, e, None, False, 'float', lo + 7, hi, 1499 if quick else 97, g.lower(), e))
         marks = sorted(rng.sample(range(lo, hi), 6 if quick else 40))
         for c in marks:
             age_jobs.append((g, e, c, (g, e) == ('M', '800') and c % 2 == 0))
@@ -204,10 +215,15 @@ def run(pid, tier):
                 _, rws = rows()
                 njobs = [(g, e, True, list(range(a, min(a + 256, 1501)))) for g, e, v in rws for a in range(-10, 1501, 256)]
                 njobs += [(g, e, False, [-5, 0, 1, 500, 1500]) for g, e in UNKNOWN ]
+                # "for every scored event and gender": the row is found whatever the letter case ('hj', 'Hj', 'm')
+                for g, e, v in rws:
+                    sp = [(g.lower(), e.lower()), (g, e.capitalize()), (g.lower(), e)] if any(ch.isalpha() for ch in e) else [(g.lower(), e)]
+                    for k, (sg, se) in enumerate(sp):
+                        njobs.append((g, e, True, list(range(-3 + k, 1501, 41)), sg, se))
                 for part in pool.map(_need_job, njobs, chunksize=2):
                     recs += part
         rep.count('evaluations', sum(x['n'] for x in recs))
-        slim = [{k: v for k, v in x.items() if k not in ('n', 'form')} for x in recs]
+        slim = [{k: v for k, v in x.items() if k not in ('n', 'form', 'sg', 'se')} for x in recs]
         reports, outs = common.validate_records(specdir, sc, 'Trace_Athlon', slim, timeout=3000)
         for r in outs:
             rep.absorb_tlc(r, traces=1)
@@ -225,10 +241,12 @@ def run(pid, tier):
                 at = pr.get('at') or []
                 if x['k'] == 'seg':
                     what = '%s: athlon_score(%r, %r, %s%s%s) first differing run %s' % (
-                        cl, x['g'], x['e'], 'centi-marks' + (' (int form)' if x['form'] == 'int' else ''),
+                        cl, x.get('sg', x['g']), x.get('se', x['e']), 'centi-marks' + (' (int form)' if x['form'] == 'int' else ''),
                         ', age=%d' % x['age'] if x['age'] else '', ', esaa' if x['esaa'] else '', at)
                     sig = '%s:%s:%s:%s' % (cl, x['form'], 'age' if x['age'] else 'noage', 'val%d' % at[2] if at and at[2] < 0 else 'value')
-                    replay = {'fn': 'score', 'g': x['g'], 'e': x['e'], 'age': x['age'], 'esaa': x['esaa'], 'c': at[0] if at else 0, 'form': x['form']}
+                    replay = {'fn': 'score', 'g': x.get('sg', x['g']), 'e': x.get('se', x['e']), 'age': x['age'], 'esaa': x['esaa'], 'c': at[0] if at else 0, 'form': x['form']}
+                    if x.get('se', x['e']) != x['e'] or x.get('sg', x['g']) != x['g']:
+                        sig += ':spelled'
                 elif x['k'] == 'age':
                     a = at[0] if at else 0
                     what = '%s: athlon_score(%r, %r, %.2f, age=%d) -> %s' % (cl, x['g'], x['e'], x['c'] / 100.0, a, x['vals'][a - 1] if a else '?')
@@ -240,9 +258,9 @@ def run(pid, tier):
                     replay = {'fn': 'score', 'g': x['g'], 'e': x['e'], 'age': x['age'], 'esaa': False, 'c': x['c'], 'form': 'float'}
                 else:
                     what = '%s: athlon_performance_needed(%r, %r, %d) -> %.2f scoring %s; next-worse mark scores %s' % (
-                        cl, x['g'], x['e'], x['t'], x['perf'] / 100.0, x['sAt'], x['sWorse'])
-                    sig = '%s:%s-%s:%d' % (cl, x['g'], x['e'], x['t'])
-                    replay = {'fn': 'needed', 'g': x['g'], 'e': x['e'], 't': x['t']}
+                        cl, x.get('sg', x['g']), x.get('se', x['e']), x['t'], x['perf'] / 100.0, x['sAt'], x['sWorse'])
+                    sig = '%s:%s-%s:%d' % (cl, x.get('sg', x['g']), x.get('se', x['e']), x['t'])
+                    replay = {'fn': 'needed', 'g': x.get('sg', x['g']), 'e': x.get('se', x['e']), 't': x['t']}
                 rep.add_violation(sig, what, replay)
         if drift_n:
             rep.notes.append('%d returned marks differ from the exact threshold while satisfying the relation (diagnostic only)' % drift_n)
